@@ -58,6 +58,11 @@ CLAIMED = {
    note="etree/XML semantics not modelled; control dependence with error-only exits pruned.",
    technique="static analysis: status-table and sentinel path rules, typestate walk (respond once), writer/reader table agreement with control-dependence rule, CFG ordering rule",
    ref="DESIGN.md §3 C11"),
+ "C13": dict(
+   text="Static analysis of structural necessary conditions of SCTE-35 insertion: the events-per-minute validator's error is returned on all non-nil paths in the configuration check and in the event constructor; the constructor call is control-dependent on contentType == video and on the setting being present, and its interval arguments are read from this segment's own start time, duration and timescale; the MPD's InbandEventStream append is control-dependent on exactly 'video' and 'setting present' (and loops) and uses the scheme constant the events carry; pkg/scte35 touches no package-level variable written after initialisation (no state between calls). Offsets, exactly-once per minute, PTS wrap and CRC are not decided.",
+   note="Intra-procedural dependence for the interval arguments (a hand-off of the whole metadata struct to a helper counts as use); control dependence with error-only exits pruned.",
+   technique="static analysis: control-dependence rules, errors-returned path rule, intra-procedural dependence slices, package purity query over SSA",
+   ref="DESIGN.md §3 C13"),
  "C18": dict(
    text="Static analysis (SSA control-flow walk + range/guard analysis) of two structural necessary conditions: every callback/read error is returned on all non-nil paths, and the box-walk cursor provably advances and cannot wrap. Decides those clauses for every input and read schedule; does not decide output equality.",
    note="Trusts go/types, go/ssa; VTA call graph for reachability; integer overflow only modelled where a rule says so.",
